@@ -205,14 +205,27 @@ func (t *nrTrace) onDeliver(f *syncFollower, batch []elem, concurrent bool, befo
 		}
 	}
 	if reason == "" && class == "verify" {
+		// which element the insert loop must stop at is read off the BATCH (not off the index the call reported — that is compared):
+		// the first unknown element that is altered, or that does not link to its predecessor in the batch
+		exp := -1
+		for i := first; i < len(batch) && exp < 0; i++ {
+			if !batch[i].valid {
+				exp = i
+			} else if i > first {
+				p, m := batch[i-1].dm.Momentum, batch[i].dm.Momentum
+				if m.PreviousHash != p.Hash || m.Height != p.Height+1 {
+					exp = i
+				}
+			}
+		}
 		switch {
-		case idx < first || idx >= len(batch):
-			reason = "index-outside"
-		case batch[idx].valid:
+		case exp < 0:
+			reason = "refusal-not-explained-by-the-batch" // every element genuine and linking: M5 of the stream judges it
+		case batch[exp].valid:
 			reason = "genuine-momentum-out-of-place" // does not link: whether the VM accepts its blocks there is not the model's to say
-		case !nrCleanNotes[nrBaseNote(batch[idx].note)]:
+		case !nrCleanNotes[nrBaseNote(batch[exp].note)]:
 			reason = "fabricated-momentum-executed"
-		case idx > first && !(batch[idx-1].valid && batch[idx].dm.Momentum.Height == batch[idx-1].dm.Momentum.Height+1):
+		case exp > first && batch[exp].dm.Momentum.Height != batch[exp-1].dm.Momentum.Height+1:
 			reason = "altered-momentum-out-of-place"
 		}
 	}
